@@ -121,6 +121,10 @@ def build_index(ctx):
         else:
             keys.append(base)
             keys.append(base.split("::")[-1] if "{closure" not in base else base)
+        if "{closure" in base and f.args:
+            tag = f.local_ty.get(f.args[0], "").replace("&mut ", "").replace("&", "").strip()
+            if tag.startswith("{closure@"):
+                keys.append(tag)
         for k in keys:
             count[k] = count.get(k, 0) + 1
             idx.setdefault(k, f)
